@@ -269,8 +269,12 @@ func runC06(tb TB, p *sim.Plan) *sim.Outcome {
 						// C06.size for application messages: Message.TotalBytes is the length of the PUBLISH the message is
 						// sent as (the broker's Maximum Packet Size decisions rest on it)
 						msg := gmqtt.MessageFromPublish(pub)
-						if pub.Properties != nil {
-							msg.SubscriptionIdentifier = pub.Properties.SubscriptionIdentifier
+						if r.ver == 5 {
+							// as the broker does for a delivery: the identifiers of the matching subscriptions (the reader, in
+							// broker role, does not accept them in a PUBLISH, so they are added here)
+							for _, id := range [][]uint32{nil, {1}, {127, 128}, {16383, 16384, 5}, {2097151, 2097152, 268435455, 1}}[(len(pub.Payload)+len(pub.TopicName))%5] {
+								msg.SubscriptionIdentifier = append(msg.SubscriptionIdentifier, id)
+							}
 						}
 						if pub.Qos > 0 {
 							msg.PacketID = pub.PacketID
